@@ -260,5 +260,54 @@ theorem loadRecording_ok (file : List Frame) (sr : Nat) (d : Rat) (a : TimeArray
   rw [hm, h3] at h
   exact ⟨Nat.pos_of_ne_zero h2, h.symm⟩
 
+/-- normal form of the spectrogram axes -/
+theorem stftAxesGen_ok (pinned : Bool) (len : Nat) (t0 step w h : Rat) (a : SpecAxes)
+    (hok : stftAxesGen pinned len t0 step w h = .ok a) :
+    0 < len ∧ 1 ≤ stftNperseg step w ∧ stftNoverlap step w h < min (stftNperseg step w) (len : Int) ∧
+    a = ⟨stftNperseg step w, stftNoverlap step w h,
+         ⟨stftTimes t0 step (min (stftNperseg step w) (len : Int) - stftNoverlap step w h)
+            (stftCount len (min (stftNperseg step w) (len : Int)) (stftNoverlap step w h)),
+          if pinned then h else ((stftNperseg step w - stftNoverlap step w h : Int) : Rat) / (1 / step)⟩,
+         ⟨stftFreqs step (min (stftNperseg step w) (len : Int)), 1 / step / (stftNperseg step w : Rat)⟩⟩ := by
+  unfold stftAxesGen at hok
+  by_cases h1 : len = 0
+  · simp only [h1, if_true] at hok; exact absurd hok (by simp)
+  by_cases h2 : stftNperseg step w < 1
+  · simp only [h1, h2, if_true, if_false] at hok; exact absurd hok (by simp)
+  by_cases h3 : stftNoverlap step w h ≥ min (stftNperseg step w) (len : Int)
+  · simp only [h1, h2, h3, if_true, if_false] at hok; exact absurd hok (by simp)
+  simp only [h1, h2, h3, if_false, Except.ok.injEq] at hok
+  exact ⟨Nat.pos_of_ne_zero h1, by omega, by omega, hok.symm⟩
+
+theorem stftTimes_length (t0 step : Rat) (nstep : Int) (cnt : Nat) :
+    (stftTimes t0 step nstep cnt).length = cnt := by simp [stftTimes]
+
+theorem stftTimes_getElem (t0 step : Rat) (nstep : Int) (cnt k : Nat) (hk : k < (stftTimes t0 step nstep cnt).length) :
+    (stftTimes t0 step nstep cnt)[k] = t0 + (k : Rat) * ((nstep : Rat) * step) := by
+  simp only [stftTimes, List.getElem_map, List.getElem_range]
+  field_simp
+
+theorem stftFreqs_getElem (step : Rat) (nps : Int) (k : Nat) (hk : k < (stftFreqs step nps).length) :
+    (stftFreqs step nps)[k] = (k : Rat) * (1 / step / (nps : Rat)) := by
+  simp only [stftFreqs, List.getElem_map, List.getElem_range]
+  ring
+
+theorem axisOk_of (first st : Rat) (f : Nat → Rat) (n : Nat) (h0 : f 0 = first)
+    (hinc : ∀ k, k + 1 < n → f k < f (k + 1))
+    (hw : ∀ k, k < n → -st < f k - (first + (k : Rat) * st) ∧ f k - (first + (k : Rat) * st) < st) :
+    axisOk first ⟨(List.range n).map f, st⟩ = true := by
+  rw [axisOk_iff]
+  simp only [List.length_map, List.length_range, List.getElem_map, List.getElem_range]
+  exact ⟨fun i h => hinc i h, fun _ => h0, fun i h => hw i h⟩
+
+/-- an exact lattice with a positive step is a truthful axis -/
+theorem axisOk_lattice (first st : Rat) (n : Nat) (hst : 0 < st) :
+    axisOk first ⟨lattice first st n, st⟩ = true := by
+  unfold lattice
+  apply axisOk_of first st (fun (i : Nat) => first + (i : Rat) * st) n
+  · simp
+  · intro k _; push_cast; nlinarith
+  · intro k _; constructor <;> simp [hst]
+
 
 end SE.Audio
